@@ -14,7 +14,7 @@ RULE = ('the same deterministic case file is executed by harness binaries compil
         'distinct = (op family, variant, offset, block count, tail) per build')
 ASSUMPTIONS = ['host CPU executes SSE4.1/AVX/AVX2 (checked at run time; a configuration the CPU cannot run is reported, not judged)', 'spec models of C01-C11']
 FLOORS = {'evaluations': 12000, 'distinct': 3000}
-THOROUGH_ROUNDS = 8   # thorough tier: generator passes with derived seeds (runner.gen_rounds)
+THOROUGH_ROUNDS = 40   # thorough tier: generator passes with derived seeds (runner.gen_rounds)
 CFGS = ['rel', 'sse41', 'avx', 'avx2', 'shani']
 
 
